@@ -61,6 +61,9 @@ class AST:
         self.redecl = {}       # id -> canonical (defining) id
         self.typedefs = []     # (node, parent)
         self.lambda_by_type = {}   # '(lambda at file:l:c)' -> closure record id (first instantiated one)
+        self.typemap_all = {}      # printed type string -> every decl id printed that way (closures and the specialisations over them share one string)
+        self.closure_loc = {}      # closure record id -> its '(lambda at ...)' string
+        self.spec_closure = {}     # id of a class template specialisation over a closure type -> that closure's record id
         self._lambdas = []
         self._index()
 
@@ -101,6 +104,8 @@ class AST:
                 qt = n.get('type', {}).get('qualType')
                 if qt and 'id' in n['decl']:
                     self.typemap.setdefault(qt, n['decl']['id'])
+                    if '(lambda at ' in qt and n['decl']['id'] not in self.typemap_all.setdefault(qt, []):
+                        self.typemap_all[qt].append(n['decl']['id'])
             if k in ('TypedefDecl', 'TypeAliasDecl'):
                 self.typedefs.append(n)
             if k == 'LambdaExpr' and n.get('inner') and n['inner'][0].get('kind') == 'CXXRecordDecl':
@@ -117,6 +122,55 @@ class AST:
             qt = n.get('type', {}).get('qualType')
             if qt and not self._dependent_ctx(n):
                 self.lambda_by_type.setdefault(qt, n['inner'][0]['id'])
+                self.closure_loc[n['inner'][0]['id']] = qt
+        # which closure a class template specialisation over a lambda type belongs to: all specialisations over the lambdas
+        # of one source location print alike; the closure whose members its own member functions reference tells them apart
+        self.specs_over_closures = []     # (template name, specialisation id, closure id)
+        for sid, sn in list(self.byid.items()):
+            if sn.get('kind') != 'ClassTemplateSpecializationDecl' or sid in self.closure_loc:
+                continue
+            if not any(c.get('kind') == 'TemplateArgument' and '(lambda at ' in c.get('type', {}).get('qualType', '') for c in sn.get('inner', [])):
+                continue
+            st = [sn]
+            found = None
+            while st and found is None:
+                x = st.pop()
+                for key in ('referencedDecl', 'referencedMemberDecl'):
+                    r = x.get(key)
+                    rid = r.get('id') if isinstance(r, dict) else r
+                    if rid is not None:
+                        q = self.parent.get(rid)
+                        if q is not None and q.get('id') in self.closure_loc:
+                            found = q['id']
+                for c in x.get('inner', []) or []:
+                    if isinstance(c, dict):
+                        st.append(c)
+            if found is not None:
+                self.spec_closure[sid] = found
+                self.specs_over_closures.append((sn.get('name'), sid, found))
+        # specialisations whose members never touch the closure (std::optional<L>: the payload sits in a base) are associated by
+        # order: the k-th specialisation of a template over the lambdas of one location belongs to the k-th closure of that
+        # location.  The order rule is only used where it is confirmed by every directly associated template of the same location.
+        closures_by_loc = {}
+        for cid, loc in self.closure_loc.items():
+            closures_by_loc.setdefault(loc, []).append(cid)
+        groups = {}
+        for sid, sn in self.byid.items():
+            if sn.get('kind') != 'ClassTemplateSpecializationDecl' or not sn.get('completeDefinition'):
+                continue
+            ta = [c for c in sn.get('inner', []) if c.get('kind') == 'TemplateArgument']
+            if ta and ta[0].get('type', {}).get('qualType', '') in closures_by_loc:
+                groups.setdefault((ta[0]['type']['qualType'], sn.get('name')), []).append(sid)
+        confirmed = {}
+        for (loc, nm), sids in groups.items():
+            if all(x in self.spec_closure for x in sids):
+                ok = [self.spec_closure[x] for x in sids] == closures_by_loc[loc][:len(sids)] and len(sids) == len(closures_by_loc[loc])
+                confirmed[loc] = confirmed.get(loc, True) and ok
+        for (loc, nm), sids in groups.items():
+            if not any(x in self.spec_closure for x in sids) and confirmed.get(loc) and len(sids) == len(closures_by_loc[loc]):
+                for x, cid in zip(sids, closures_by_loc[loc]):
+                    self.spec_closure[x] = cid
+                    self.specs_over_closures.append((nm, x, cid))
         # functions by mangled name: only real instantiations / ordinary functions, never template patterns
         self.by_mangled = {}
         for nid, n in self.byid.items():
@@ -189,6 +243,34 @@ class AST:
         if pid and pid in self.byid:
             return self.byid[pid]
         return self.parent.get(n.get('id'))
+
+    def ctx_closure(self, loc, ctx_node):
+        """the closure record of the lambda printed as `loc` that the code at ctx_node means: the one created in the
+        enclosing function instantiation, or the one the enclosing closure / specialisation belongs to"""
+        a = ctx_node
+        seen = set()
+        while a is not None and id(a) not in seen:
+            seen.add(id(a))
+            k = a.get('kind')
+            aid = a.get('id')
+            if k == 'LambdaExpr' and a.get('type', {}).get('qualType') == loc and a.get('inner'):
+                return a['inner'][0]['id']
+            if aid in self.closure_loc and self.closure_loc[aid] == loc:
+                return aid
+            if aid in self.spec_closure and self.closure_loc.get(self.spec_closure[aid]) == loc:
+                return self.spec_closure[aid]
+            if k in FUNC_KINDS:
+                st = [a]
+                while st:
+                    x = st.pop()
+                    if x.get('kind') == 'LambdaExpr' and x.get('type', {}).get('qualType') == loc and x.get('inner') \
+                            and x['inner'][0].get('kind') == 'CXXRecordDecl':
+                        return x['inner'][0]['id']
+                    for c in x.get('inner', []) or []:
+                        if isinstance(c, dict):
+                            st.append(c)
+            a = self.parent.get(aid) if aid is not None else None
+        return None
 
     def enclosing_record(self, n):
         for p in self.scope_chain(n):
